@@ -954,6 +954,17 @@ impl rustc_driver::Callbacks for Cb {
                         ("line", J::Num(line as i128)),
                         ("derived", J::Bool(is_derived(tcx, did))),
                     ];
+                    // evaluated value for string / byte-slice constants without generics
+                    if let TyKind::Ref(_, inner, _) = ty.kind() {
+                        let is_bytes = inner.is_str() || matches!(inner.kind(), TyKind::Slice(e) if *e == tcx.types.u8);
+                        if is_bytes && tcx.generics_of(did).is_empty() {
+                            if let Ok(val) = tcx.const_eval_poly(did) {
+                                if let Some(bytes) = val.try_get_slice_bytes_for_diagnostics(tcx) {
+                                    v.push(("value", s(String::from_utf8_lossy(bytes).to_string())));
+                                }
+                            }
+                        }
+                    }
                     // literal strings / integers appearing in the initialiser
                     let cx = Cx { tcx, body, owner: did };
                     let mut lits = Vec::new();
